@@ -74,7 +74,7 @@ const nWholeOffsets = 5
 // executor duration in tenths of the task's period
 var durTenths = []int{0, 3, 10, 15, 30}
 
-var sleepsAll = []int{10, 100, 500, 1000, 2500, 10000, 30000, 61000, 3601000}
+var sleepsAll = []int{10, 100, 500, 1000, 2500, 10000, 30000, 61000, 125000}
 var sleepsCalm = []int{10, 100, 500, 1000, 2500, 10000, 30000, 61000}
 var sleepsC25 = []int{10, 500, 1500, 3000, 7000, 12000}
 
@@ -156,6 +156,7 @@ type world struct {
 	lastEnd  []time.Time
 	dead     atomic.Bool
 	abortCh  chan struct{}
+	mainDone chan struct{}
 	execs    int
 	onErrs   int
 	finalOn  bool
@@ -777,7 +778,7 @@ func gen(r *hx.Run) []json.RawMessage {
 
 func exec(r *hx.Run, prog []json.RawMessage) {
 	cfg := r.Tape.S("cfg")
-	w := &world{r: r, pfx: "C24:", byID: map[scheduler.ID]*mtask{}, abortCh: make(chan struct{}), whenSeen: map[string]bool{}}
+	w := &world{r: r, pfx: "C24:", byID: map[scheduler.ID]*mtask{}, abortCh: make(chan struct{}), mainDone: make(chan struct{}), whenSeen: map[string]bool{}}
 	w.c25 = r.CfgBool("c25")
 	if w.c25 {
 		w.pfx = "C25:"
@@ -797,6 +798,7 @@ func exec(r *hx.Run, prog []json.RawMessage) {
 		r.MixSig(p.K, uint64(p.T)<<24|uint64(p.S)<<16|uint64(p.O)<<8|uint64(p.L)^uint64(p.Ms)<<32)
 	}
 	r.Simulate(func() {
+		defer close(w.mainDone)
 		w.hookFail()
 		// leave the grid of due times (whole seconds + offsets): no operation or check of the main goroutine
 		// coincides with a timer of the scheduler
@@ -807,6 +809,7 @@ func exec(r *hx.Run, prog []json.RawMessage) {
 			w.runC24(ops)
 		}
 	})
+	drained := false
 	if w.dead.Load() {
 		// the simulation was stopped (busy-wait, deadlock, step cap): let the goroutines of the scheduler drain
 		// natively — executors return at once, then Stop can finish
@@ -814,6 +817,15 @@ func exec(r *hx.Run, prog []json.RawMessage) {
 		if w.sch != nil && !w.stopping {
 			w.stopping = true
 			w.sch.Stop()
+		}
+	}
+	if w.dead.Load() {
+		// the bubble's clock stops when this (root) goroutine returns: wait for the main goroutine of the
+		// simulation, which may still be inside a virtual sleep
+		select {
+		case <-w.mainDone:
+			drained = true
+		case <-time.After(3 * time.Hour):
 		}
 	}
 	for i := range r.Viol {
@@ -828,6 +840,12 @@ func exec(r *hx.Run, prog []json.RawMessage) {
 			}
 			r.Viol[i].Detail = "scheduler main loop spins (" + w.failKind + ") at virtual time " + ts(w.failAt) + ": " + r.Viol[i].Detail + " | model: " + w.failState
 		}
+	}
+	if drained && r.Aborted {
+		// Stop() returned (main loop and workers have exited) and the main goroutine has finished: nothing of
+		// this run is left behind, the worker process need not be retired
+		r.Aborted = false
+		r.Probe("probe_drained_after_abort")
 	}
 	r.Add("executions", w.execs)
 	r.NonTrivial = len(ops) >= 3 && w.execs > 0 && r.Sim != nil && r.Sim.Stats.Switches > 0
